@@ -17,9 +17,10 @@
 (*                  per comLog() of communicator m iff the module property      *)
 (*                  comlog, generalConfig.comlog and generalConfig.initialized  *)
 (* One record has three independent outcomes: remote receivers, log file,       *)
-(* comlog file.  Files are dated; the first line written on a new day creates   *)
-(* the file of that day and keeps only the newest N files of that sink          *)
-(* (N = logfile_days / comlog_days, 0 = keep all).                              *)
+(* comlog file.  Files are dated; the first line a file handler writes on a     *)
+(* later day than its previous one (or than its creation) creates the file of   *)
+(* that day and keeps only the newest N files of that sink (N = logfile_days /  *)
+(* comlog_days, 0 = keep all); nothing is removed at any other time.            *)
 EXTENDS Naturals, Sequences, FiniteSets, TLC
 
 CONSTANTS Conns,     \* connection ids (strings)
@@ -69,9 +70,10 @@ VARIABLES level,   \* [Mods \X Conns -> Nat] chosen threshold, Off when not enab
           last,    \* observable outcome of the last operation
           cfg,     \* the configuration the node was started with (never changes)
           day,     \* current day (1 = day of the start)
-          dated    \* [Files -> SUBSET Days]: days for which the sink has a dated file
+          dated,   \* [Files -> SUBSET Days]: days for which the sink has a dated file
+          hday     \* [Files -> Days]: day of the file the sink's handler has open (day of its creation at first)
 
-rvars == <<level, alive, last, cfg, day, dated>>
+rvars == <<level, alive, last, cfg, day, dated, hday>>
 
 None == [kind |-> "none"]
 
@@ -85,8 +87,9 @@ RInit == /\ level = [mc \in Mods \X Conns |-> Off]
          /\ cfg \in Configs
          /\ day = 1
          /\ dated = [f \in Files |-> {}]
+         /\ hday = [f \in Files |-> 1]
 
-lvars == <<cfg, day, dated>>
+lvars == <<cfg, day, dated, hday>>
 
 (* logging <target> <lvl>: set the threshold of one module or of all modules *)
 LoggingReq(c, target, lvl) ==
@@ -122,9 +125,13 @@ ComSinks(m) == ModSinks("comlog") \cup (IF ComOn(m) THEN {m} ELSE {})
 
 (* the n newest members of S (all of them when n = 0) *)
 Newest(S, n) == IF n = 0 THEN S ELSE {d \in S : Cardinality({e \in S : e > d}) < n}
-(* every file sink reached gets its line in today's file; a new day keeps the newest N files of that sink *)
-Write(sinks) == dated' = [f \in Files |-> IF f \in sinks THEN Newest(dated[f] \cup {day}, Retention(f))
-                                          ELSE dated[f]]
+(* every file sink reached gets its line in today's file; the first line on a new day (rollover of that    *)
+(* handler) keeps the newest N files of that sink                                                          *)
+Write(sinks) ==
+    /\ dated' = [f \in Files |-> IF f \notin sinks THEN dated[f]
+                                  ELSE IF hday[f] < day THEN Newest(dated[f] \cup {day}, Retention(f))
+                                  ELSE dated[f] \cup {day}]
+    /\ hday' = [f \in Files |-> IF f \in sinks THEN day ELSE hday[f]]
 
 Emit(m, lvl) ==
     /\ last' = [kind |-> "emit", to |-> Receivers(m, lvl), mod |-> m, lvl |-> lvl, sinks |-> ModSinks(lvl)]
@@ -150,12 +157,14 @@ NextDay ==
     /\ day < MaxDay
     /\ day' = day + 1
     /\ last' = [kind |-> "nextday"]
-    /\ UNCHANGED <<level, alive, cfg, dated>>
+    /\ UNCHANGED <<level, alive, cfg, dated, hday>>
 
-(* the node creates its modules anew on the same loggers (Server.run restart loop): nothing observable changes *)
+(* the node creates its modules anew on the same loggers (Server.run restart loop): no handler is added to a    *)
+(* logger, nothing observable changes; every communicator gets a new handler for its comlog file                *)
 ReInit ==
     /\ last' = [kind |-> "reinit"]
-    /\ UNCHANGED <<level, alive, lvars>>
+    /\ hday' = [f \in Files |-> IF f \in ComMods THEN day ELSE hday[f]]
+    /\ UNCHANGED <<level, alive, cfg, day, dated>>
 
 ClearConn(c) == level' = [mc \in Mods \X Conns |-> IF mc[2] = c THEN Off ELSE level[mc]]
 
@@ -196,6 +205,7 @@ TypeOK == /\ level \in [Mods \X Conns -> {10, 15, 20, 30, 40, 99}]
           /\ cfg \in Configs
           /\ day \in Days
           /\ dated \in [Files -> SUBSET Days]
+          /\ hday \in [Files -> Days]
 
 (* a dead connection never has a subscription and never receives *)
 DeadSilent == /\ \A m \in Mods, c \in Conns \ alive : level[<<m, c>>] = Off
@@ -242,9 +252,15 @@ ComlogOnceInComlogFile ==
     /\ last.kind = "comlog" => last.sinks \cap ComMods = (IF ComOn(last.mod) THEN {last.mod} ELSE {})
     /\ last.kind \in {"emit", "mainemit"} => last.sinks \cap ComMods = {}
 
-(* a sink that was just written has today's file; never more than N files per sink *)
-RetentionOK == /\ IsRecord => \A f \in last.sinks \cap Files : day \in dated[f]
-               /\ \A f \in Files : Retention(f) > 0 => Cardinality(dated[f]) <= Retention(f)
+(* a sink that was just written has today's file; no file of the future; a handler is never ahead of the day *)
+RetentionOK == /\ IsRecord => \A f \in last.sinks \cap Files : day \in dated[f] /\ hday[f] = day
+               /\ \A f \in Files : hday[f] <= day /\ \A d \in dated[f] : d <= day
+
+(* after the first line of a new day a sink has at most N files, the newest ones *)
+RolloverKeepsNewest == [][\A f \in Files :
+                            (IsRecord' /\ f \in last'.sinks /\ hday[f] < day /\ Retention(f) > 0) =>
+                                /\ Cardinality(dated'[f]) <= Retention(f)
+                                /\ dated'[f] = Newest(dated[f] \cup {day}, Retention(f))]_rvars
 
 (* only the sinks reached change, and only files older than all kept ones disappear *)
 SinksIsolated == [][\A f \in Files :
